@@ -1,7 +1,7 @@
 (* C06 -- pinned statements only (generated once by tools/pin.py from `Check`, then fixed); proofs in RcCascadeP.v *)
 From Coq Require Import ZArith List Bool Lia Arith.
 Import ListNotations.
-Require Import Params StateW ModularW DisposeW StateP ModularP Rc RcChain RcCascadeP.
+Require Import Params StateW ModularW DisposeW StateP ModularP Rc RcChain RcCascadeP RcTreeP.
 Local Open Scope Z_scope.
 
 Theorem C06_cascade_full :
@@ -124,4 +124,85 @@ Theorem C06_chain3_recent_link_defers :
        map dropped (objs s') = [true; false; false] /\ map po (pending s') = [2%nat].
 Proof. exact RcCascadeP.chain3_recent_link_defers. Qed.
 Print Assumptions C06_chain3_recent_link_defers.
+
+
+(* ---- binary trees of any size and shape (RcTreeP.v) *)
+Theorem C06_tree_cascade_full :
+  forall (t : nat) (s : state) (x : thr) (a : nat) (K : list frame) (oa : obj) 
+         (ll lr : link) (TL TR : tree),
+       let T := Node a TL TR in
+       gett s t = Some x ->
+       frames x = FDispEnter a 0 :: K ->
+       Z.of_nat (height T) <= DEPTH_CAP ->
+       epoch_ok (G s) ->
+       geto s a = Some oa ->
+       wordp (oword oa) ->
+       destructed (oword oa) = true ->
+       weaked (oword oa) = false ->
+       old (G s) (epoch (oword oa)) ->
+       links oa = [ll; lr] ->
+       tree_in s ll TL ->
+       tree_in s lr TR ->
+       shared T = [] ->
+       NoDup (ids T) ->
+       exists (n : nat) (s' : state),
+         (n <= 11 * size T)%nat /\
+         iter_micro n s t = s' /\
+         (forall o : nat, In o (ids T) -> exists ob : obj, geto s' o = Some ob /\ gone ob) /\
+         pending s' = pending s /\ footprint s s' t x K (ids T).
+Proof. exact RcTreeP.tree_cascade_full. Qed.
+Print Assumptions C06_tree_cascade_full.
+
+Theorem C06_tree_cascade_survivor :
+  forall (t : nat) (s : state) (x : thr) (a : nat) (K : list frame) (oa : obj) 
+         (ll lr : link) (TL TR : tree) (h : nat) (oh : obj),
+       let T := Node a TL TR in
+       gett s t = Some x ->
+       frames x = FDispEnter a 0 :: K ->
+       Z.of_nat (height T) <= DEPTH_CAP ->
+       epoch_ok (G s) ->
+       geto s a = Some oa ->
+       wordp (oword oa) ->
+       destructed (oword oa) = true ->
+       weaked (oword oa) = false ->
+       old (G s) (epoch (oword oa)) ->
+       links oa = [ll; lr] ->
+       tree_in s ll TL ->
+       tree_in s lr TR ->
+       NoDup (ids T) ->
+       shared T = [h] ->
+       geto s h = Some oh ->
+       strong (oword oh) = 2 ->
+       destructed (oword oh) = false ->
+       exists (n : nat) (s' : state) (oh' : obj),
+         (n <= 11 * size T)%nat /\
+         iter_micro n s t = s' /\
+         (forall o : nat, In o (nodes T) -> exists ob : obj, geto s' o = Some ob /\ gone ob) /\
+         geto s' h = Some oh' /\
+         strong (oword oh') = 1 /\
+         destructed (oword oh') = false /\
+         weaked (oword oh') = weaked (oword oh) /\
+         dropped oh' = dropped oh /\
+         freed oh' = freed oh /\
+         links oh' = links oh /\ pending s' = pending s /\ footprint s s' t x K (ids T).
+Proof. exact RcTreeP.tree_cascade_survivor. Qed.
+Print Assumptions C06_tree_cascade_survivor.
+
+Theorem C06_tree5_hyps :
+  let s := tree5_state 0 100 95 93 94 in
+       let x := chain_thread [FDispEnter 1 0] in
+       exists (oa : obj) (ll lr : link),
+         gett s 0 = Some x /\
+         frames x = [FDispEnter 1 0] /\
+         Z.of_nat (height (Node 1 T5L T5R)) <= DEPTH_CAP /\
+         epoch_ok (G s) /\
+         geto s 1 = Some oa /\
+         wordp (oword oa) /\
+         destructed (oword oa) = true /\
+         weaked (oword oa) = false /\
+         old (G s) (epoch (oword oa)) /\
+         links oa = [ll; lr] /\
+         tree_in s ll T5L /\ tree_in s lr T5R /\ shared (Node 1 T5L T5R) = [] /\ NoDup (ids (Node 1 T5L T5R)).
+Proof. exact RcTreeP.tree5_hyps. Qed.
+Print Assumptions C06_tree5_hyps.
 
